@@ -108,63 +108,111 @@ def ncdf(x):
     return 0.5 * math.erfc(-x / math.sqrt(2.0))
 
 
-def eval_py(e, env):
+def eval_py(e, env, strict=True, order=1):
+    """plain evaluation in python floats. strict=True keeps generous margins to the boundary of the differentiable
+    domain (used for random trees); strict=False only excludes genuinely non-differentiable / non-finite points
+    (used for the extreme-magnitude sweeps). A zero base of pow is differentiable for exponents 0, 1, 2, ..."""
     t = e[0]
+    m = 0.05 if strict else 0.0
     if t == "var":
         return env[e[1]]
     if t == "cst":
         return e[1]
     if t in ("add", "sub", "mul", "div"):
-        a, b = eval_py(e[1], env), eval_py(e[2], env)
+        a, b = eval_py(e[1], env, strict, order), eval_py(e[2], env, strict, order)
     elif t in ("addf", "subf", "mulf", "divf"):
-        a, b = eval_py(e[1], env), e[2]
+        a, b = eval_py(e[1], env, strict, order), e[2]
     elif t in ("fadd", "fsub", "fmul", "fdiv"):
-        a, b = e[1], eval_py(e[2], env)
+        a, b = e[1], eval_py(e[2], env, strict, order)
     else:
-        a = eval_py(e[1], env)
+        a = eval_py(e[1], env, strict, order)
         b = None
-    base = t.strip("f") if t not in ("fdiv",) else "div"
-    if t in ("add", "addf", "fadd"):
-        return a + b
-    if t in ("sub", "subf", "fsub"):
-        return a - b
-    if t in ("mul", "mulf", "fmul"):
-        return a * b
-    if t in ("div", "divf", "fdiv"):
-        if abs(b) < 0.05:
+
+    def fin(r):
+        if not math.isfinite(r) or (r != 0.0 and not (1e-290 < abs(r) < 1e290)):
             raise OutOfDomain()
-        return a / b
+        return r
+    if t in ("add", "addf", "fadd"):
+        return fin(a + b)
+    if t in ("sub", "subf", "fsub"):
+        return fin(a - b)
+    if t in ("mul", "mulf", "fmul"):
+        return fin(a * b)
+    if t in ("div", "divf", "fdiv"):
+        if abs(b) <= m:
+            raise OutOfDomain()
+        return fin(a / b)
     if t in ("neg", "negref"):
         return -a
     if t in ("pow", "powref"):
         p = e[2]
-        if a > 0.05 or (a < -0.05 and float(p).is_integer()):
-            r = math.pow(a, p)
-            if abs(r) > 1e4 or abs(math.pow(a, p - 2)) > 1e4:
-                raise OutOfDomain()
-            return r
-        raise OutOfDomain()
-    if t == "exp":
-        if a > 8:
+        ok = a > m or (a < -m and float(p).is_integer()) or \
+            (not strict and a == 0.0 and float(p).is_integer() and p >= 0)
+        if not ok:
             raise OutOfDomain()
-        return math.exp(a)
+        r = math.pow(a, p)
+        if strict and (abs(r) > 1e4 or abs(math.pow(a, p - 2)) > 1e4):
+            raise OutOfDomain()
+        if not strict and a != 0.0:
+            fin(math.pow(abs(a), p - 2))
+        return fin(r)
+    if t == "exp":
+        if a > (8 if strict else 650):
+            raise OutOfDomain()
+        return fin(math.exp(a))
     if t == "log":
-        if a < 0.05:
+        if a <= m:
             raise OutOfDomain()
         return math.log(a)
     if t == "ncdf":
-        if abs(a) > 6:
+        if abs(a) > (6 if strict else 8):
             raise OutOfDomain()
         return ncdf(a)
     if t == "nicdf":
-        if not (0.02 < a < 0.98):
+        lo = 0.02 if strict else 1e-12
+        if not (lo < a < 1 - lo):
             raise OutOfDomain()
         return ND.inv_cdf(a)
     if t == "abs":
-        if abs(a) < 0.05:
+        if abs(a) <= m:
             raise OutOfDomain()
         return abs(a)
     raise ValueError(t)
+
+
+EXTREMES = [1e-20, 3e-17, -2e-17, 2.2e-16, 1e-8, -1e-8, 1e8, -1e8, 1e20, -1e20, 1e-150, 1e150, 0.0, 1.0, -1.0, 0.3]
+
+
+def extreme_cases(order=1):
+    """every operator variant on variables of extreme magnitude (tiny, huge, exactly zero where differentiable)"""
+    out = []
+    x, y = ("var", "x"), ("var", "y")
+    pows = [-1.0, 2.0, 0.5, 3.0, -2.0, 1.0, 0.0, 1.5, -0.5, 4.0]
+    for xv in EXTREMES:
+        for yv in (1.5, xv, -0.7, 1e-20, 1e20):
+            env = [("x", xv), ("y", yv)]
+            cands = []
+            for t in ("add", "sub", "mul", "div"):
+                cands += [(t, x, y), (t, y, x), (t + "f", x, 2.5), ("f" + t, 2.5, x), (t + "f", x, 1e-18), ("f" + t, 1e18, x)]
+            for t in ("neg", "negref", "exp", "log", "ncdf", "nicdf", "abs"):
+                cands.append((t, x))
+            for p in pows:
+                cands += [("pow", x, p), ("powref", x, p), ("pow", ("sub", x, y), p), ("mul", ("pow", x, p), y)]
+            cands += [("pow", ("sub", x, y), 2.0), ("mul", ("sub", x, y), ("sub", x, y)), ("div", y, ("pow", x, 2.0))]
+            for e in cands:
+                try:
+                    eval_py(e, dict(env), strict=False, order=order)
+                    out.append((env, e))
+                except (OutOfDomain, OverflowError, ValueError, ZeroDivisionError):
+                    pass
+    # de-duplicate
+    seen, res = set(), []
+    for env, e in out:
+        k = (tuple(env), repr(e))
+        if k not in seen:
+            seen.add(k)
+            res.append((env, e))
+    return res
 
 
 def nice_float(rng, lo=-3.0, hi=3.0):
